@@ -154,6 +154,25 @@ theorem stein_inverse_compressed (c : SteinC) (ρ : ℝ) (h : c.Compressed ρ) :
     field_simp
     ring
 
+/-- at the reference density itself (η = 0, where the two branches meet): closures are mutual inverses -/
+theorem stein_inverse_at_reference (c : SteinC) (h0 : 0 < c.ρ₀) (hΓ : c.Γ₀ ≠ 0) : c.eos.InverseAt c.ρ₀ := by
+  have a1 : c.ρ₀ ≠ 0 := ne_of_gt h0
+  have a2 : ¬ (c.ρ₀ < c.ρ₀) := lt_irrefl _
+  have a3 : c.ρ₀ ≤ c.ρ₀ := le_refl _
+  have a4 : 1 - c.ρ₀ / c.ρ₀ ≤ 0 := by rw [div_self a1]; norm_num
+  have h20 : (2 : ℝ) * c.ρ₀ ≠ 0 := by positivity
+  constructor
+  · intro P
+    simp only [SteinC.eos, epv_c16, epv_tree, epv_cond, epv_leaf, a1, a2, a3, a4, if_true, if_false]
+    rw [div_self a1]
+    field_simp
+    ring
+  · intro e
+    simp only [SteinC.eos, epv_c16, epv_tree, epv_cond, epv_leaf, a1, a2, a3, a4, if_true, if_false]
+    rw [div_self a1]
+    field_simp
+    ring
+
 /-! ### Expanded branch 0 < ρ < ρ₀: every derivative method is correct -/
 
 /-- expanded branch: `de_drho`, `de_dP` are the partial derivatives of `e(ρ, P)` -/
